@@ -19,7 +19,7 @@ EXPR_LEXEMES = [
     "limit:", "offset:", "cols:", "reversed", "continue", "with", "for", "as", "if", "else", "required",
     "upcase", "append:", "default:", "join:", "plural:", "count:", "%", "!", "?", "#", "-", "--", "'", '"',
 ]
-TEXT_LEXEMES = ["a", " ", "\n", "\t", "x y", "{", "}", "%", "#", "{ {", "é", "<b>", "\r\n"]
+TEXT_LEXEMES = ["a", " ", "\n", "\t", "x y", "{", "}", "%", "#", "{ {", "é", "<b>", "\r\n", "\r", "\x0c", "\u2028", "\x85"]
 DELIMS = ["{{", "}}", "{%", "%}", "{{-", "-}}", "{%-", "-%}", "{#", "#}"]
 
 _TOKEN_RE = re.compile(r"\{\{-?|-?\}\}|\{%-?|-?%\}|\s+|\w+|.", re.DOTALL)
